@@ -28,7 +28,7 @@ RULE = ('A formula whose bounds are counted in sampling periods, a sampling peri
 ASSUMPTIONS = [
     'time stamps are expressed in the default unit (README); the time column of the discrete data set is i * period in that unit',
     'a bare bound next to a suffixed one is read in the unit of the suffixed one (the resolution order stated in the property anchors: per-bound unit, else the other bound unit, else the default unit)',
-    'the units lanes contain no next/s_next (their one-sample delay is not a duration in the pastifier; recorded in DESIGN.md)',
+    'one step of next / s_next is one sampling period (the pastified lanes contain them since the repair 2636501)',
 ]
 
 U = {'s': 10 ** 9, 'ms': 10 ** 6, 'us': 10 ** 3, 'ns': 1}
@@ -37,7 +37,7 @@ PERIODS = [(1, 's'), (2, 's'), (500, 'ms'), (250, 'ms'), (100, 'ms'), (10, 'ms')
 
 PROF_OFF = Profile(un_temp=F.UN_PAST + ('eventually', 'always'), tbin=('since', 'until', 'unless'), max_depth=3, max_bound=5)
 PROF_PAST = Profile(un_temp=F.UN_PAST, bin_temp=F.BIN_PAST, tun=F.TUN_PAST, tbin=F.TBIN_PAST, max_depth=3, max_bound=5)
-PROF_ON = Profile(un_temp=F.UN_PAST, bin_temp=F.BIN_PAST, tbin=('since', 'until'), max_depth=3, max_bound=3)
+PROF_ON = Profile(un_temp=F.UN_PAST + ('next', 's_next'), bin_temp=F.BIN_PAST, tbin=('since', 'until'), max_depth=3, max_bound=3)
 
 
 def decimal_text(fr, max_digits=12):
